@@ -28,7 +28,8 @@ CONSTANTS
   DevDropOnNone,     \* collected notification discarded when the action is None
   DevPrioAsc,        \* lowest priority served first
   DevExpirePanic,    \* row 27 with a freshly collected notification panics
-  DevNegPanic        \* a clock that moves backwards / a request timestamp in the future panics
+  DevNegPanic,       \* a clock that moves backwards / a request timestamp in the future panics
+  DevShrinkPanic     \* shrinking a monitored item queue that holds more entries than the new size panics
 
 NoVal == -1
 
@@ -315,6 +316,22 @@ DeleteItem(id, i) ==
                           ![id].lt = subs[id].maxLT]
   /\ UNCHANGED <<reqs, retx, respq, nodeVal, now>>
   /\ evt' = [ev |-> "DeleteItem", sub |-> id, item |-> i, fail |-> "none", pre |-> <<>>, out |-> <<>>, st |-> P]
+
+\* ModifyMonitoredItems: queue size and discard policy (same sampling interval, no filter).
+\* Shrinking keeps the most recent entries that fit.
+ModifyItem(id, i, qsize, dold) ==
+  /\ id \in DOMAIN subs
+  /\ i \in DOMAIN subs[id].items
+  /\ LET it == subs[id].items[i]
+         n  == Len(it.q)
+         bad == DevShrinkPanic /\ n > qsize
+         q2 == IF n > qsize THEN SubSeq(it.q, n - qsize + 1, n) ELSE it.q
+     IN /\ subs' = IF bad THEN [subs EXCEPT ![id].lt = subs[id].maxLT]
+                   ELSE [subs EXCEPT ![id].items[i] = [it EXCEPT !.qsize = qsize, !.dold = dold, !.q = q2],
+                                     ![id].lt = subs[id].maxLT]
+        /\ UNCHANGED <<reqs, retx, respq, nodeVal, now>>
+        /\ evt' = [ev |-> "ModifyItem", sub |-> id, item |-> i, qsize |-> qsize, dold |-> dold,
+                   fail |-> IF bad THEN "panic" ELSE "none", pre |-> <<>>, out |-> <<>>, st |-> P]
 
 \* a value written into the address space (by the server application or a Write service)
 Write(n, v) ==
